@@ -113,8 +113,10 @@ def replay(prop, path):
         sp = os.path.join(work, "sess.json")
         tp = os.path.join(work, "trace.json")
         json.dump(sess, open(sp, "w"))
-        p = subprocess.run([common.PY, "-c", code, sp, tp, model], cwd=common.VERIF,
-                           env=codec_check.pkg_env(os.path.join(common.REPO, "packages", "python")), stdout=subprocess.PIPE, stderr=subprocess.PIPE)
+        renv = codec_check.pkg_env(os.path.join(common.REPO, "packages", "python"))
+        renv["VERIF_CONV_CFG"] = sess.get("env", {}).get("cfg", "default")
+        renv["PYTHONHASHSEED"] = sess.get("env", {}).get("hs", "0")
+        p = subprocess.run([common.PY, "-c", code, sp, tp, model], cwd=common.VERIF, env=renv, stdout=subprocess.PIPE, stderr=subprocess.PIPE)
         if p.returncode != 0:
             raise common.MachineryError(p.stderr.decode()[-2000:])
         nev = int(p.stdout.decode().strip().splitlines()[-1])
